@@ -380,4 +380,22 @@ PROPS = {
             {"engine": "rt", "quick": 160000, "thorough": 8000000, "what": "round-trip identity (exhaustive small types + generated)"},
         ],
     },
+    "C20": {
+        "level": "exploration",
+        "technique": "runtime monitoring: two real NodeServers joined by a chaotic in-memory relay (seeded fragmentation, virtual-time delays, cut at a byte offset or time, reconnect); remotable probe actors log (variant, lane, seq, argument digest) of what they handle and answer calls with a value derived from (callee, lane, seq); offline checkers over the client-boundary send/call records and callee logs (per-lane prefix/FIFO/no-dup/no-corruption, reply correlation, completeness when undisturbed) plus state monitors at quiescent points (proxy set per session, group mirroring, proxies of stopped originals / closed sessions)",
+        "level_text": ("Each scenario: 1-3 initial + spawned-later remotable actors in up to 3 groups (scoped and default scope), a link with one of four chaos regimes, 1-5 lanes sending 1-14 operations "
+                       "(casts of two variants with payloads up to 8 KB, calls of two rpc variants with reply port last / in the middle, bursts of 8-48 concurrently outstanding calls whose callee answers at once, after 40 ms, never, or drops the port; "
+                       "callers with no / 2 ms / 30 ms / long timeouts, some abandoned after 1-300 ms) through the proxies of either node's session, while events spawn and stop/kill targets, join/leave groups, and cut the link "
+                       "(at a byte offset in either direction, also during the handshake, or at a time); half of the cut scenarios reconnect. Checked: every delivery went to the addressed actor with the sent variant and argument digest, "
+                       "per lane the deliveries are a duplicate-free in-order prefix of the sends and all of them when link and target stayed up; a Success reply carries the value of exactly that (callee, lane, seq), "
+                       "never-answered calls never succeed, answered calls with a patient caller succeed when undisturbed; at quiescent points each session hosts running proxies for exactly the live remotable actors and "
+                       "each group's proxies per session equal its local remotable members; proxies of stopped originals and of closed sessions are Stopped, in no group, and casts to them fail; after reconnect the mirror is rebuilt and calls work."),
+        "level_note": ("Both node servers live in one process and share the process-wide registries, so each remotable actor is advertised in both directions (one proxy per session, ids kept apart by advancing B's session counter). "
+                       "The ping loop draws its period from the thread RNG, so scenarios are seeded but not bit-for-bit replayable. 'Eventually' clauses are decided after 150 virtual seconds of quiescence."),
+        "rule": "non-trivial = the link became ready and at least one message was sent; distinct = hash(chaos regime, event list, lanes, targets, cut/reconnect, numbers of sends and calls).",
+        "assumptions": ["in-memory duplex + relay stands in for TCP/TLS", "tokio virtual time: delays and timeouts are exact, so 'patient caller' (>= 60 s) always outlasts the relay's worst-case transfer time"],
+        "runs": [
+            {"engine": "vt", "quick": 16000, "thorough": 1600000, "what": "E-A: two NodeServers, chaotic relay, lanes/events/cuts/reconnects"},
+        ],
+    },
 }
